@@ -35,6 +35,7 @@ def applicable_classes(fmt):
         out.append("marker")
     if fmt.layout == "fastq":
         out.append("plus")
+        out.append("plus_removed")      # the '+' line is missing altogether (the replaced symbol is class "plus")
     if fmt.layout == "tsv":
         out += ["nonnumeric", "columns_fewer"]
         if fmt.fields[-1][1] != "rest":   # SAM: a variable number of optional columns is legal
@@ -77,6 +78,23 @@ def generate(ctx):
         # third line of the record
         nl = data.index(b"\n", data.index(b"\n", start) + 1) + 1
         bad[nl] = ord("-")
+        info["offset"] = nl
+    elif klass == "plus_removed":
+        if r == n - 1 and ctx.excl:
+            # KF-C15-incomplete-last-record (open): an incomplete last record is left out silently; in 90 % of the runs the
+            # '+' line of an earlier record is removed instead (of the same record when it is the only one: class "plus")
+            if n >= 2:
+                r = tape.draw(n - 1, "record_not_last")
+                start, end, first_line, n_lines = fd["spans"][r]
+                info["record"] = r
+            else:
+                klass = info["class"] = "plus"
+        nl = data.index(b"\n", data.index(b"\n", start) + 1) + 1      # first byte of the third line
+        if klass == "plus":
+            bad[nl] = ord("-")
+        else:
+            nl2 = data.index(b"\n", nl) + 1
+            del bad[nl:nl2]
         info["offset"] = nl
     elif klass == "nonnumeric":
         cands = [f for f, k in fmt.fields if k in NUMERIC_KINDS and f in fsp and data[fsp[f][0]:fsp[f][0] + fsp[f][1]] != b"."]
@@ -203,7 +221,7 @@ def execute(ctx, sc):
         return
     _, bad_line, reason = res
     # judge only outcomes that fall under the violation classes the property lists
-    want = {"marker": ("marker",), "plus": ("plus",), "columns_fewer": ("columns",), "columns_more": ("columns",), "columns_two": ("columns",),
+    want = {"marker": ("marker",), "plus": ("plus",), "plus_removed": ("plus", "columns", "marker"), "columns_fewer": ("columns",), "columns_more": ("columns",), "columns_two": ("columns",),
             "torn": ("columns",), "nonnumeric": ("field:" + str(sc["fault"].get("field")),),
             "strand": ("field:" + str(sc["fault"].get("field")),)}[klass]
     if reason not in want:
